@@ -45,6 +45,10 @@ def clog2( N ):
   assert N > 0
   if isinstance( N, int ):
     return (N-1).bit_length()
+  # A Bits value: exact integer arithmetic, too (math.log is off by one
+  # from 2**29 on)
+  if hasattr( N, 'nbits' ):
+    return (int(N)-1).bit_length()
   return int( math.ceil( math.log( N, 2 ) ) )
 
 def sext( value, new_width ):
